@@ -256,6 +256,11 @@ func runCase(b *rt.Built, s *m.Service, meth *m.Method, c *caseRec) string {
 		return "harness could not run the case: " + obs.Err
 	}
 	if obs.Panic != "" {
+		if strings.Contains(obs.Panic, ".transform") && strings.Contains(obs.Panic, "ViewTo") && siblingViewsOmitRequired(d, meth.Result) &&
+			kf.Open("C08-sibling-nested-views-client-derefs-required-attribute-outside-the-view") {
+			stats.Class("known-finding-hit:C08-sibling-nested-views-client-derefs-required-attribute-outside-the-view")
+			return ""
+		}
 		return "panic in generated client code: " + firstLines(obs.Panic, 24)
 	}
 	if obs.ServerPanic != "" {
@@ -367,4 +372,73 @@ func firstLines(s string, n int) string {
 		ls = ls[:n]
 	}
 	return strings.Join(ls, "\n")
+}
+
+// siblingViewsOmitRequired: the result type (or the element type of a
+// collection) has a view that renders two attributes of one nested result
+// type with different views, and that nested type has a required attribute
+// which one of those views leaves out (signature of an open finding).
+func siblingViewsOmitRequired(d *m.Design, res *m.Attr) bool {
+	if res == nil || res.Type == nil || res.Type.Kind != m.User {
+		return false
+	}
+	ut := d.TypeByName(res.Type.User)
+	if ut != nil && ut.CollectionOf != "" {
+		ut = d.TypeByName(ut.CollectionOf)
+	}
+	if ut == nil || !ut.Result || ut.Attr == nil || ut.Attr.Type.Kind != m.Object {
+		return false
+	}
+	for _, v := range ut.Views {
+		used := map[string]map[string]bool{}
+		for _, vf := range v.Fields {
+			var fld *m.Field
+			for _, f := range ut.Attr.Type.Fields {
+				if f.Name == vf.Name {
+					fld = f
+				}
+			}
+			if fld == nil || fld.Attr.Type.Kind != m.User {
+				continue
+			}
+			n := d.TypeByName(fld.Attr.Type.User)
+			if n == nil || !n.Result {
+				continue
+			}
+			view := vf.View
+			if view == "" {
+				view = fld.Attr.View
+			}
+			if view == "" {
+				view = "default"
+			}
+			if used[n.Name] == nil {
+				used[n.Name] = map[string]bool{}
+			}
+			used[n.Name][view] = true
+		}
+		for name, views := range used {
+			if len(views) < 2 {
+				continue
+			}
+			n := d.TypeByName(name)
+			for vn := range views {
+				for _, nv := range n.Views {
+					if nv.Name != vn {
+						continue
+					}
+					listed := map[string]bool{}
+					for _, f := range nv.Fields {
+						listed[f.Name] = true
+					}
+					for _, f := range n.Attr.Type.Fields {
+						if f.Required && !listed[f.Name] {
+							return true
+						}
+					}
+				}
+			}
+		}
+	}
+	return false
 }
